@@ -56,9 +56,9 @@ type Snapshot struct {
 	SpotOrders []tstypes.SpotOrder
 	PerpOrders []tstypes.PerpetualOrder
 
-	Prices    []oracletypes.Price
-	SwapInQ   int
-	SwapOutQ  int
+	Prices   []oracletypes.Price
+	SwapInQ  int
+	SwapOutQ int
 }
 
 func (w *World) Snapshot() *Snapshot {
